@@ -68,7 +68,7 @@ CHECKS = {
     "Translator-generated decision kernels + Coq proofs over R (kernels and whole-loop models) + whole-run and teacher-forced correspondence + inequality oracle"),
  "C06": CHECKS_C06,
  "C07": C("proof",
-    "18 theorems over R by induction over ARBITRARY scripts of inner-solver outcomes on a model of the whole ALM operator() (Alm.v): penalties positive, monotone, capped, grow only where the violation persists; multipliers passed in bounded and signed; tolerance non-increasing and >= final; <= max_iter outer iterations; Converged iff; Interrupted immediate; status selection; Sigma_out = last used; statistics are sums. "
+    "35 theorems over R (21 about ARBITRARY scripts of inner-solver outcomes on a model of the whole ALM operator() (Alm.v), 11 tying the kernels regenerated from alm.tpp, alm-helpers.tpp, alm.hpp and the accumulators to that model, 3 about composed runs): penalties positive, monotone, capped, grow only where the violation persists; multipliers passed in bounded and signed; tolerance non-increasing and >= final; <= max_iter outer iterations; Converged iff; Interrupted immediate; a stop request (ALM's own flag, read after the inner solve) ends the run at that outer iteration; status selection Converged > MaxTime > MaxIter > Interrupted; Sigma_out = last used; statistics are sums. "
     "Correspondence: whole traces of the real ALMSolver<ScriptedInner> (arguments of every inner call, Stats) vs the model at binary64; oracle on the traces.",
     "4/C07", TB_REALS + CORR + "NaN paths only by correspondence; clocks bracketed by the driver; preconditions stated in the theorems (initial_tolerance >= tolerance, uniform Sigma for single_penalty_factor, Delta >= 1).",
     "Coq induction over inner-outcome scripts + trace correspondence against ALMSolver<ScriptedInner>"),
@@ -125,9 +125,9 @@ CHECKS = {
     "4/C18", "Coq 8.16.1 kernel, no axioms; translator translate/gen_C18_tables.py (g++ -E + header parsing, compiler cross-checks); " + CORR + "decimal-to-double conversion is an oracle; duration rounding validated by correspondence.",
     "Translator-generated tables + Coq frame/rejection proofs + correspondence + parser oracle"),
  "C19": C("proof",
-    "PARTIAL. Proved: on the status chain GENERATED from the code a pending stop request never yields Busy; for every observation sequence the loop skeleton returns at the first check that sees the request with Interrupted or a higher-ranked status, and Interrupted only after a request; ALM returns immediately after an Interrupted inner solve; Interrupted overwrites outputs like Converged (C03 relations). "
+    "PARTIAL. Proved: on the status chain GENERATED from the code a pending stop request never yields Busy; for every observation sequence the loop skeleton returns at the first check that sees the request with Interrupted or a higher-ranked status, and Interrupted only after a request; ALM returns immediately after an Interrupted inner solve, and (composed models over all four inner solvers) the run ends at the outer iteration in which a sticky request becomes visible: no inner solve is started after the request; Interrupted overwrites outputs like Converged (C03 relations). "
     "Explored by exhaustive fault enumeration on fixed problems: stop() from every evaluation index, callback index and direction-provider call for 12 stacks stand-alone and under ALM: status, tail length, outputs, ALM propagation. Not claimed: asynchronous calls from other threads and data-race freedom.",
-    "4/C19", TB_REALS + "asynchrony / data race not expressible in a Gallina model (stated in evidence.assumptions); promptness bound is empirical (largest per-iteration evaluation count of the unstopped run + 8; 2G+8 under ALM).",
+    "4/C19", TB_REALS + "asynchrony / data race not expressible in a Gallina model (stated in evidence.assumptions); promptness: proved bounds for PANOC / ZeroFPR / FISTA, empirical for PANTR (largest per-iteration evaluation count of the unstopped run + 8, stand-alone and under ALM: no inner solve starts after the request).",
     "Coq proofs on generated chain + loop skeleton, fault enumeration of stop injection points"),
  "C20": C("proof",
     "25 axiom-free theorems: shared-counter model for arbitrary histories of new/call/copy/assign/decouple/reset: value read = number of calls through any sharing wrapper since creation or reset, copy shares, decouple separates, reset keeps the wrapper usable; finite theorems over tables TRANSLATED from problem-with-counters.hpp / ocproblem.hpp / dl-problem.cpp: each member counts its own counter, forwards to the same name with the same argument order, requires-clause subject matches, DL forwarders match the C signatures. "
